@@ -5,11 +5,11 @@ import random
 from harness import coqfmt as cf
 
 PROP = "C15"
-COQ = dict(imports=["Model.Cycle", "Spec.C15"], in_ty="graph", out_ty="load_res",
-           corr="corr_C15", decide="check_C15", model="load", inclass="wf_refsb")
-THEOREMS = ["C15_iff", "C15_total", "C15_heads_bases", "C15_model_holds", "C15_decider_sound", "C15_kahn_iff", "C15_traversal_total", "C15_accepted_commands_terminate"]
-TRUSTED = ["graphs are given to the model with depends_on already resolved to revision ids "
-           "(branch-label dependencies are covered by C16/C17)"]
+COQ = dict(imports=["Model.Cycle", "Spec.C15"], in_ty="rawgraph", out_ty="load_res",
+           corr="corr_C15", decide="check_C15", model="load_raw", inclass="inclass_C15")
+THEOREMS = ["C15_iff", "C15_total", "C15_heads_bases", "C15_model_holds", "C15_decider_sound", "C15_kahn_iff", "C15_traversal_total", "C15_accepted_commands_terminate", "C15_raw"]
+TRUSTED = ["depends_on is given to the model as written (revision ids or branch labels) and resolved by the model "
+           "(label -> the revision carrying it); partial-id dependencies are not generated"]
 ASSUME = ["every down_revision / depends_on names a revision that exists, ids are distinct (wf_refs); "
           "an absent reference raises KeyError in the implementation and is outside the statement"]
 RULE = ("quick: ALL 4096 digraphs on 4 revisions with down_revision edges only + ALL 4096 on 3 revisions where each "
@@ -22,6 +22,33 @@ CASE_TIMEOUT = 5
 
 def _g(n, down, deps):
     return [{"id": i, "down": sorted(down.get(i, ())), "deps": sorted(deps.get(i, ()))} for i in range(n)]
+
+
+def with_labels(rnd, g, p=0.5):
+    """give some revisions a branch label and write some depends_on entries as the label of their target"""
+    g = [dict(r) for r in g]
+    owner = {}
+    for r in g:
+        if rnd.random() < p:
+            r["labels"] = [r["id"]]          # label number = id of its owner; rendered "lab<id>"
+            owner[r["id"]] = r["id"]
+    for r in g:
+        r["deps_as_label"] = [d for d in r["deps"] if d in owner and rnd.random() < 0.7]
+    return g
+
+
+def all3_label_deps():
+    """every 3-revision digraph with dependencies where revision 2 carries a label and every depends_on
+    that points at it is written as that label"""
+    for g in all3_dep():
+        g = [dict(r) for r in g]
+        g[2]["labels"] = [2]
+        hit = False
+        for r in g:
+            r["deps_as_label"] = [d for d in r["deps"] if d == 2]
+            hit = hit or bool(r["deps_as_label"])
+        if hit:
+            yield g
 
 
 def all4_down():
@@ -71,11 +98,13 @@ def generate(tier, seed):
     rnd = random.Random(seed * 7919 + 15)
     yield from all4_down()
     yield from all3_dep()
+    yield from all3_label_deps()
     nrand = 1500 if tier == "quick" else 20000
     for k in range(nrand):
         n = rnd.randint(5, 9)
-        yield rand_graph(rnd, n, rnd.choice([0.1, 0.2, 0.3]), rnd.choice([0, 0.1, 0.2]),
-                         acyclic=(k % 3 != 0), selfloop=(k % 25 == 0))
+        g = rand_graph(rnd, n, rnd.choice([0.1, 0.2, 0.3]), rnd.choice([0, 0.1, 0.2, 0.3]),
+                       acyclic=(k % 3 != 0), selfloop=(k % 25 == 0))
+        yield with_labels(rnd, g) if k % 2 else g
     if tier == "thorough":
         for _ in range(120000):
             n = 5
@@ -101,8 +130,14 @@ def run_case(g):
     name = lambda i: "r%d" % i
     back = lambda s: int(s[1:])
     tup = lambda xs: tuple(name(x) for x in xs) if xs else None
+
+    def deps_of(r):
+        al = set(r.get("deps_as_label", ()))
+        xs = tuple(("lab%d" % d) if d in al else name(d) for d in r["deps"])
+        return xs or None
     try:
-        revs = [R.Revision(name(r["id"]), tup(r["down"]), dependencies=tup(r["deps"])) for r in g]
+        revs = [R.Revision(name(r["id"]), tup(r["down"]), dependencies=deps_of(r),
+                           branch_labels=tuple("lab%d" % l for l in r.get("labels", ())) or None) for r in g]
         m = R.RevisionMap(lambda: revs)
         m._revision_map
         out = {"loaded": {"heads": [back(x) for x in m.heads], "bases": [back(x) for x in m.bases],
@@ -122,7 +157,13 @@ def run_case(g):
         out, cout = {"err": "other:" + type(e).__name__}, "LoadErr EOther"
     edges = sum(len(r["down"]) + len(r["deps"]) for r in g)
     shape = "n%d-%s" % (len(g), "err" if "err" in out else "ok")
-    return dict(cin=cf.graph(g), cout=cout, out=out, nontrivial=edges > 0, shape=shape)
+    def raw(r):
+        al = set(r.get("deps_as_label", ()))
+        return cf.lst("(%s, %d)" % ("true" if d in al else "false", d) for d in r["deps"])
+    cin = cf.lst("(%s, %s)" % (cf.rev(r["id"], r["down"], (), (), r.get("labels", ())), raw(r)) for r in g)
+    if any(r.get("deps_as_label") for r in g):
+        shape += "-labeldep"
+    return dict(cin=cin, cout=cout, out=out, nontrivial=edges > 0, shape=shape)
 
 
 def classify(human, out):
